@@ -4,6 +4,7 @@ mod c02;
 mod c18;
 mod c19;
 mod c20;
+mod docs;
 mod evalreq;
 mod merge;
 mod rx;
@@ -44,6 +45,7 @@ fn main() {
         "c18" => c18::run(&out, seed, thorough, &side),
         "c19" => c19::run(&out, seed, thorough, &side),
         "c20" => c20::run(&out, seed, thorough, &side),
+        "docs" => docs::run(&out, seed, thorough, &side),
         "world" => match &replay {
             Some(file) => world::run_replay(&out, file, prop.as_deref(), kind.as_deref()),
             None => world::run(&out, seed, thorough, &side, prop.as_deref(), kind.as_deref()),
